@@ -22,6 +22,26 @@ CHECKS = {
    technique="TLC model checking of a TLA+ transcription of the tree-walking evaluator (Interp, Level 1) against a denotational Eval written from the JMESPath specification (Level 0) on a bounded universe of trees x documents; exhaustive short sentences x documents and random long sentences x random documents searched by the real library and judged by TLC against Eval",
    text="TLC checks on every (tree, document) pair of a bounded universe (all trees of depth <= 1 over 17 leaves under every node kind; every JSON value of depth <= 1 (quick) / 2 (thorough), width 2 over 8 atoms) that the evaluator as coded computes the meaning the specification assigns (nulls dropped from every projection, one-level flatten, short-circuit and/or, 0 truthy, wrong-typed subject null, ascending key order), with two negative controls. Every ABNF sentence without '&' of up to 5 (quick) / 6 (thorough) payload-carrying tokens against a pool of 12 documents, and seeded random sentences of up to ~75/180 tokens against random documents of depth <= 4, are compiled and searched by the real library; TLC lexes the text, builds the Level-0 tree and accepts the observation iff it equals Eval(tree, document).",
    note="Trusted: TLC; Eval.tla as the reading of the specification; the driver's value abstraction (numbers as rationals with denominator <= 1000). Outcomes that depend on a choice the specification leaves open (expression reference to an `any` parameter, ties in max_by/min_by, to_string of numbers) are counted but not judged. The known finding F15 (C04) changes results of expressions containing `.[..]` inside a projection and is reported as KNOWN-FINDING."),
+ "C02": dict(engine="funcs", design="4/C02",
+   technique="TLC model checking of the built-in functions' contract (permutation+ordered+stable, extreme key, right bias, code points, ...) on the TLA+ function semantics; enumerated value domains and random large calls evaluated by the real library and judged by TLC against Eval!Apply",
+   text="TLC checks on every cell of per-function value domains that the Level-0 function semantics used by all judges satisfies the clauses of the property stated independently (sort/sort_by: same multiset, ascending, ties in original order; max_by/min_by: an input element with extreme key; merge right-biased; keys/values pairwise and ascending; length/reverse on code points; to_number a number or null; avg([]) null; map keeps length; sum([]) 0; abs/ceil/floor), with a vacuity guard showing that tied keys are exercised. The same domains (arrays of length 0..4/5 over small pools, strings with 2-, 3- and 4-byte code points, stability families of length 16..64 in six arrangements -- an unstable sort first shows at length 33) and seeded random calls with arrays up to 200 elements, nested in projections, map and other calls, are evaluated by the real library and each result is compared by TLC with the specification's value.",
+   note="Trusted: TLC; Eval.tla Apply as the reading of the function specification. Numbers are exact small rationals (no floating-point summation-order effects). Ties in max_by/min_by are judged by the relation (any extreme element); to_string of computed numbers is not judged (1 vs 1.0)."),
+ "C06": dict(engine="funcs", design="4/C06",
+   technique="TLC model checking of the signature decision table (Level-1 table transcribed from functions.rs vs. Level-0 table of the function specification); the full table replayed into the real library and judged by TLC",
+   text="TLC explores every cell (function x argument count 0..3 (quick) / 4 (thorough) x 10 argument type classes per position) and shows: wrong count => arity error before any type check; right count with an argument outside its parameter type => type error; valid call => result of the declared type; and the table as coded (defn!/arg! cells, Signature::validate) equals the table of the function specification except where an expression reference meets an `any` parameter (left open by the specification). A loosened cell as negative control must fail. All ~29k (quick) cells, with arguments as literals and via the document, plus an unregistered name, are run on the real library and TLC compares error class / value with Eval.",
+   note="Trusted: TLC; Eval.tla Sig/Validate/ResultTypes (DESIGN.md Appendix A). Unspecified cells (expression reference to `any`) are counted, not judged."),
+ "C09": dict(engine="lexval", design="4/C09",
+   technique="TLC model checking of spelling rules against the lexer model over the prefix tree of all short strings; spellings of enumerated and random strings evaluated by the real library and judged by TLC against the value they were spelled from",
+   text="For every string of up to 4 (quick) / 5 (thorough) characters over delimiters, backslash, blanks and 1-/2-/4-byte characters TLC shows on the lexer model that the raw-string spelling denotes the string exactly when the string is spellable, that JSON literals holding it denote it, that three spellings of it as a quoted identifier lex to it, and that malformed forms are rejected. The same spellings for every string up to 3/4 characters and for seeded random strings over all planes up to 24/40 characters are compiled and searched by the real library (literals against null, identifiers against an object with near-miss keys); TLC accepts iff the observed value is the value the text was spelled from, and malformed forms must fail to compile with a parse error.",
+   note="Trusted: TLC; LexVal.tla (spelling rules) and JText.tla (JSON printer). A disagreement between the lexer model and the spelling rule is reported as a tool error, not a verdict."),
+ "C10": dict(engine="cmp", design="4/C10",
+   technique="TLC model checking of the comparison contract on all pairs of a bounded value universe (Level-1 compare vs Level-0 Cmp); all pairs of a 44-text pool x six operators run on the real library and judged by TLC, incl. cross-operator laws on the observed results",
+   text="TLC checks on all 58k ordered pairs of the universe of depth 1 / width 2 over 10 atoms (and on trees x documents through Eval) that == is deep equality, type-separating, reflexive and symmetric, != its negation, ordering defined exactly for two numbers with exactly one of <, ==, > and <=, >= consistent, and that the comparison as coded (type-gated PartialEq, the internal total order, the number gate) equals it; leaking the internal total order into == must fail. Every ordered pair of 44 JSON texts (all type pairings, nested/empty containers, several spellings of equal numbers incl. exponents and -0, permuted object keys, escaped strings) is compared with all six operators by the real library, both over a document given as JSON text and as literals; TLC checks each result against Eval and the operator laws on the six observed results themselves.",
+   note="Trusted: TLC; JsonParse.tla for number spellings. Numbers are well separated small rationals (no float-tolerance edge cases)."),
+ "C11": dict(engine="laws", design="4/C11",
+   technique="TLC model checking of the compositional laws as theorems of Eval; laws checked by TLC on values that were all observed from the real library (whole from text, whole from parts' public ASTs, parts, parts per element)",
+   text="TLC shows on the bounded universe of trees x documents that pipe, every projection kind (map-then-drop-nulls), filter (select), multi-select list/hash and ! && || obey the laws in Eval (and Interp = Eval). For 23 left parts x 16 right parts / 10 projection continuations / 8 predicates x 9 documents (33k cases) the driver evaluates with the real library only: the compound compiled from text, the compound built from the parts' public ASTs through Expression::new, each part, and the right-hand side / predicate on every element of the projected subject; TLC applies just the law's combination rule to those observed values and requires equality (errors: the first failing part's error kind).",
+   note="Trusted: TLC; the combination rules in TV_Laws.tla. The projected subject of flatten / value / slice projections is observable only after null-dropping, so those laws use right-hand sides that map null to null."),
 }
 
 def main():
